@@ -95,6 +95,9 @@ def main(argv):
             if it.id not in seen_ids:
                 seen_ids.add(it.id)
                 uniq.append(it)
+        flt = os.environ.get("VF_ITEM_FILTER")     # debugging aid (not used by the registered commands): run a subset of the work list
+        if flt:
+            uniq = [it for it in uniq if re.search(flt, it.id)]
         items = uniq + selfcheck.items(tier, seed, sre=getattr(mod, "USES_REGEX", False))
     except BaseException as e:
         import traceback
